@@ -25,6 +25,11 @@ def own_cases(tier, rng):
                     for k in range(0, nv + 3):
                         yield sx([10, 3, rows, cols, pos, vals, k])
                         yield sx([10, 4, rows, cols, pos, vals, k])
+                    # iterators that LIE in size_hint (safe code may): claim more / fewer / exact
+                    for claim in sorted({0, nv, nv + 2, cols, rows, cols + 3, 64}):
+                        for k in (0, max(nv - 1, 0), nv + 5):
+                            yield sx([10, 3, rows, cols, pos, vals, k, claim])
+                            yield sx([10, 4, rows, cols, pos, vals, k, claim])
     for lens in ([], [1], [3], [2, 2], [2, 3], [3, 1, 2], [2, 2, 2]):
         n = 1
         for x in lens:
